@@ -46,7 +46,7 @@ EXHAUSTIVE = {
 REACH = {t: ["sub_rejected", "sub_timeout", "sub_ok", "unsub_rejected", "unsub_timeout", "unsub_ok",
              "full_table", "size_0", "already_subscribed", "startup_subscribed", "probe_free_count_checked",
              "versions_3", "startup_several_endpoints", "startup_group_on_two_endpoints", "rejection_status_family_swept",
-             "overlapping_calls", "startup_again_on_same_object"] for t in ("quick", "thorough")}
+             "overlapping_calls", "startup_again_on_same_object", "through_coordinator_endpoint"] for t in ("quick", "thorough")}
 SHARD_TIMEOUT = {"quick": 900, "thorough": 3600}
 
 G = [0x1001, 0x1002, 0x1003]
@@ -92,6 +92,8 @@ def shards(tier, seed):
     out.sort(key=lambda d: -d["n"])
     for d in out:
         d["debuglog"] = d["n"] <= 2  # DEBUG logging on the small tables (the big ones are the critical path)
+    for V in versions:
+        out.append({"version": V, "part": "endpoint", "n": -1, "seed": seed, "deep": tier == "thorough", "debuglog": V == versions[0]})
     return out
 
 
@@ -117,6 +119,8 @@ def is_ok(st):
 def run_shard(desc) -> Acc:
     import bellows.multicast as mcast
 
+    if desc.get("part") == "endpoint":
+        return run_endpoint_shard(desc)
     logmode.apply(desc)
     acc = Acc()
     install_status_contract(acc)
@@ -404,6 +408,93 @@ def run_shard(desc) -> Acc:
         vloop.run(main)
     except ncpsim.BringUpFailed:
         pass
+    return acc
+
+
+def run_endpoint_shard(desc) -> Acc:
+    """The same invariants with group changes made the way zigpy makes them: through the coordinator's
+    own endpoint (EZSPEndpoint.add_to_group / remove_from_group) of a started ControllerApplication."""
+    from .. import appharness
+
+    logmode.apply(desc)
+    acc = Acc()
+    install_status_contract(acc)
+    V = desc["version"]
+    acc.reach["version:%d" % V] += 1
+
+    async def one(loop, seq):
+        ap = await appharness.started_app(loop, V, acc, "C15")
+        app, ncp = ap.app, ap.ncp
+        table = ncp.state["multicast"]
+        mc = app.multicast
+        ep = next((e_ for i_, e_ in sorted(app._device.endpoints.items()) if i_ != 0 and hasattr(e_, "add_to_group")), None)
+        case = {"version": V, "via": "coordinator endpoint", "ops": [list(x) for x in seq]}
+        acc.case()
+        if ep is None:
+            acc.notes.append("coordinator endpoint with add_to_group not found: endpoint path skipped")
+            return
+        hist = []
+        for (op, g, ans) in seq:
+            free_before = len(table.free())
+            table.answers = [ans]
+            w0 = len(table.writes)
+            exc = None
+            try:
+                await (ep.add_to_group(g) if op == "add" else ep.remove_from_group(g))
+            except BaseException as ex:  # noqa: BLE001
+                exc = ex
+            ws = table.writes[w0:]
+            hist.append((op, hex(g), ans if ws else "-", type(exc).__name__ if exc else None, ws))
+            if ws and ans == "timeout" and not isinstance(exc, asyncio.TimeoutError):
+                acc.violation("C15/subscribe/timeout-not-propagated", f"{op}({g:#x}) with an unanswered table write ended with {exc!r}", case, hist)
+                return
+            if ws:
+                acc.hit("endpoint_" + op + "_" + ans.split(":")[0])
+        # probe: the host's idea of the table against the NCP's
+        table.answers = []
+        for g in sorted({e[0] for e in table.entries if e[1] != 0}):
+            w0 = len(table.writes)
+            st_ = await mc.subscribe(g)
+            if table.writes[w0:] or not is_ok(st_):
+                acc.violation("C15/mirror/ncp-has-group-host-does-not", f"group {g:#x} is programmed in the NCP table but the host does not treat it as subscribed", case, hist)
+                return
+        free_now = table.free()
+        got = 0
+        for g in FRESH[: len(table.entries) + 1]:
+            w0 = len(table.writes)
+            st_ = await mc.subscribe(g)
+            if table.writes[w0:] and is_ok(st_):
+                got += 1
+            elif not table.writes[w0:] and is_ok(st_):
+                acc.violation("C15/mirror/host-reports-group-ncp-lacks", f"host treats {g:#x} as subscribed, the NCP table lacks it", case, hist)
+                return
+            else:
+                break
+        if got != len(free_now):
+            acc.violation("C15/slots/free-index-leaked", f"the NCP table had {len(free_now)} unused entries {free_now} after {seq}, but only {got} further "
+                          "groups could be subscribed: the host lost track of an index", case, hist)
+        else:
+            acc.hit("probe_free_count_checked")
+        acc.hit("through_coordinator_endpoint")
+        acc.nontrivial((V, "endpoint", tuple(seq)))
+        if len(acc.samples) < 1:
+            acc.sample({"case": case, "history": [repr(h) for h in hist]})
+
+    ops = [("add", G[0]), ("add", G[1]), ("remove", G[0])]
+    answers = ["ok", "reject:fatal", "timeout"]
+    seqs = [[(o, g, a)] for (o, g) in ops for a in answers]
+    seqs += [[(o1, g1, a1), (o2, g2, a2)] for (o1, g1) in ops for a1 in answers for (o2, g2) in ops for a2 in answers]
+    if desc.get("deep"):
+        seqs += [[("add", G[0], "timeout"), ("add", G[1], "timeout"), ("add", G[2], a)] for a in answers]
+    for seq in seqs:
+        async def main(loop, seq=seq):
+            await one(loop, seq)
+        try:
+            vloop.run(main)
+        except ncpsim.BringUpFailed:
+            break
+        except vloop.Deadlock:
+            acc.violation("C15/hang", f"loop ran dry during {seq}", {"version": V, "ops": [list(x) for x in seq]})
     return acc
 
 
